@@ -226,7 +226,7 @@ func (m *vxMAC) BlockSize() int { return 64 }
 // ---- base64 = identity; randomness = arbitrary ----
 
 func vxB64Dec(e *base64.Encoding, s string) ([]byte, error) { return []byte(s), nil }
-func vxB64Enc(e *base64.Encoding, b []byte) string           { return string(b) }
+func vxB64Enc(e *base64.Encoding, b []byte) string          { return string(b) }
 
 var vxRands [][]byte
 
@@ -277,7 +277,7 @@ func (s *vxStore) ListPage(context.Context, string, string, int) ([]string, erro
 	return nil, nil
 }
 func (s *vxStore) Get(context.Context, string) (*logical.StorageEntry, error) { return nil, nil }
-func (s *vxStore) Delete(context.Context, string) error                      { return nil }
+func (s *vxStore) Delete(context.Context, string) error                       { return nil }
 func (s *vxStore) Put(ctx context.Context, e *logical.StorageEntry) error {
 	if s.fail {
 		return vxErr("policy write failed")
